@@ -15,7 +15,7 @@ pub struct Case {
     /// how many times the main template is rendered per parser (1..3)
     pub renders: u8,
     /// per partial (by position): 0 = source as printed, 1 = + "\n", 2 = + " \n\n", 3 = "\n" + source,
-    /// 4 = the empty source, 5 / 6 = lone braces as text before the first markup, 7 = after the last
+    /// 4 = the empty source, 5 / 6 = lone braces as text before the first markup, 7 = after the last, 8 / 9 = a source of blanks only (line break; space, U+00A0, tab)
     #[serde(default)]
     pub source_variant: Vec<u8>,
     /// additional literal partial sources (name, source), e.g. `x` next to `x.liquid`
@@ -42,6 +42,8 @@ impl Case {
                     5 => format!("{{ {s}"),
                     6 => format!("a }} {{ b {s}"),
                     7 => format!("{s} {{ }}"),
+                    8 => "\n".to_string(),
+                    9 => " \u{a0}\t".to_string(),
                     _ => s,
                 };
                 (n, s)
@@ -126,9 +128,13 @@ pub fn oracle(c: &Case, obs: &mut Obs) -> Check {
                 return Err(Failure::new(format!("policies: render panics ({:?}): {}", POLICIES[pi], p.site()), format!("{}\n {}", describe(), p.what)));
             }
         }
-        // (iv) n-th render equals the first
+        // (iv) n-th render equals the first (an error is the same error: same text)
         for (n, r) in rs.iter().enumerate() {
-            if key(r) != key(&rs[0]) {
+            let same_text = match (r, &rs[0]) {
+                (Ok(Err(a)), Ok(Err(b))) => a == b,
+                _ => true,
+            };
+            if key(r) != key(&rs[0]) || !same_text {
                 return Err(Failure::new(format!("policies: render {} differs from the first render of the same template ({:?})", n + 1, POLICIES[pi]), format!("{}\n first={}\n later={}", describe(), lq::show(&rs[0]), lq::show(r))));
             }
         }
@@ -175,7 +181,7 @@ pub fn oracle(c: &Case, obs: &mut Obs) -> Check {
 fn fixed() -> Vec<Case> {
     let mut v = Vec::new();
     for sc in c08::enumerated_scenarios() {
-        for variant in 0u8..8 {
+        for variant in 0u8..10 {
             v.push(Case { sc: sc.clone(), renders: 2, source_variant: vec![variant; 3], extra_sources: vec![], main_override: None });
         }
     }
@@ -268,12 +274,12 @@ fn expected_literal(c: &Case) -> Option<Result<String, ()>> {
 
 pub fn run(ctx: &Ctx) {
     ctx.set_rule("All scenarios of the C08 generator (a main template and up to three partials that are valid, syntactically broken or absent; literal and dynamic partial names; executed and dead paths; every include/render form) plus the C08 enumerated call-form family; each scenario builds three parsers (eager, lazy, on-demand compilation over the in-memory source) and renders the main template 1..3 times on each, interleaved with an unrelated template. Oracle: build succeeds under every policy; every render has the same Ok/Err status and the same output under the three policies; the n-th render equals the first; replacing a broken partial by an absent one changes nothing; the unrelated template is unaffected. Partial sources are also varied literally (trailing / leading newline, the empty source) and a family of names with and without the `.liquid` suffix (x, x.liquid, both) is enumerated for every sequence of <= 3 include/render calls, as are mixed-case name sets (every non-empty subset of 6 names) and path-like names (x, ./x, dir/x, X: every subset x every sequence of <= 2 calls); for these literal families the expected output is also computed in closed form (the exact name; render falls back to name.liquid). Lone braces as plain text before / after the markup of a partial are source variants too. Non-trivial = a broken or absent partial exists, or partials are executed >= 2 times; distinct by scenario.");
-    ctx.assume("error message texts are not compared across policies (eager and lazy word 'unknown partial' differently)");
+    ctx.assume("error message texts are not compared across policies (eager and lazy word 'unknown partial' differently); within one policy a repeated render must repeat the error text");
     ctx.cases("call_forms", fixed(), oracle);
     ctx.cases("dot_liquid_names", dot_liquid(), oracle);
     ctx.cases("name_shapes", name_shapes(), oracle);
     ctx.random("scenarios", ctx.pick(20_000, 500_000), || {
-        (c08::scenario(), 1u8..=3, proptest::collection::vec(prop_oneof![4 => Just(0u8), 1 => 1u8..8], 3))
+        (c08::scenario(), 1u8..=3, proptest::collection::vec(prop_oneof![4 => Just(0u8), 1 => 1u8..10], 3))
             .prop_map(|(sc, renders, source_variant)| Case { sc, renders, source_variant, extra_sources: vec![], main_override: None })
     }, oracle);
 }
